@@ -243,20 +243,35 @@ package silence
 //@   assigns s.st[*], s.mi[*], s.vi, s.vi[*], s.version, sil.*
 //@   noeffect broadcast RecordEvent MaxSilences MaxSilenceSizeBytes
 
-// C12: garbage collection. Only silences whose retention has passed (or whose expiry is unreadable) are removed;
-// everything that stays is untouched, so pending and active silences (expiry = end + retention > now) survive.
+// C12 / C02: garbage collection. Exactly the indexed silences whose retention has passed (or whose expiry is
+// unreadable) are removed - from the store, the matcher index and the version index together; everything that stays
+// is untouched, stays indexed (in the same order, so the version order is kept), and keeps its compiled matchers.
+// So pending and active silences (expiry = end + retention > now) survive and expired ones disappear after retention.
+//@ spec gcDue(ms *pb.MeshSilence, n time.Time) bool = ms.ExpiresAt == nil || tsT(ms.ExpiresAt) == 0 || tsT(ms.ExpiresAt) <= n
 //@ func (*Silences).GC
 //@   props C12 C02
 //@   requires s != nil && storeInv(s) && s.metrics != nil && metricsOK(s) && s.metrics.gcDuration != nil && s.metrics.gcErrorsTotal != nil
-//@   ensures [only-expired] let n = ret("nowUTC") in forall k string :: old(k in s.st) && !(k in s.st)
-//@             ==> old(s.st[k].ExpiresAt) == nil || tsT(old(s.st[k].ExpiresAt)) == 0 || tsT(old(s.st[k].ExpiresAt)) <= n
+//@   ensures [only-expired] let n = ret("nowUTC") in forall k string :: old(k in s.st) && !(k in s.st) ==> old(gcDue(s.st[k], n))
+//@   ensures [every-due-indexed-silence-removed] let n = ret("nowUTC") in forall i int :: 0 <= i && i < old(len(s.vi)) && old(s.vi[i].id in s.st) && old(gcDue(s.st[s.vi[i].id], n)) ==> !(old(s.vi[i].id) in s.st)
 //@   ensures [kept-untouched] forall k string :: k in s.st ==> old(k in s.st) && s.st[k] == old(s.st[k])
+//@   ensures [matcher-index-in-step] forall k string :: (old(k in s.st) && !(k in s.st) ==> !(k in s.mi)) && ((k in s.st) ==> (k in s.mi) == old(k in s.mi) && s.mi[k] == old(s.mi[k]))
+//@   ensures [version-index-lists-only-stored] forall j int :: 0 <= j && j < len(s.vi) ==> (s.vi[j].id in s.st)
+//@   ensures [version-index-keeps-the-stored] forall i int :: 0 <= i && i < old(len(s.vi)) && (old(s.vi[i].id) in s.st) ==> old(s.vi[i]) in elems(s.vi)
+//@   ensures [order-kept] old(viSorted(s)) ==> viSorted(s)
 //@   ensures [inv] storeInv(s) && s.st == old(s.st) && s.mi == old(s.mi) && s.version == old(s.version)
-//@   loop 1 invariant s.st == old(s.st) && s.mi == old(s.mi) && storeInv(s) && s.version == old(s.version)
-//@   loop 1 invariant let n = ret("nowUTC") in forall k string :: old(k in s.st) && !(k in s.st)
-//@             ==> old(s.st[k].ExpiresAt) == nil || tsT(old(s.st[k].ExpiresAt)) == 0 || tsT(old(s.st[k].ExpiresAt)) <= n
+//@   loop 1 invariant s.st == old(s.st) && s.mi == old(s.mi) && storeInv(s) && s.version == old(s.version) && s.vi == old(s.vi) && rangeindex < len(s.vi) && called("nowUTC") && now == ret("nowUTC")
+//@   loop 1 invariant (base(targetVi) == base(s.vi) && slice(targetVi, 0, 0) == slice(s.vi, 0, 0) && len(targetVi) <= rangeindex + 1 && cap(targetVi) == cap(s.vi)) || (fresh(targetVi) && base(targetVi) != base(s.vi))
+//@   loop 1 invariant !needsRealloc ==> base(targetVi) == base(s.vi) && len(targetVi) <= rangeindex + 1
+//@   loop 1 invariant forall m int :: rangeindex < m && m < len(s.vi) ==> s.vi[m] == old(s.vi[m])
+//@   loop 1 invariant forall k string :: old(k in s.st) && !(k in s.st) ==> old(gcDue(s.st[k], now))
 //@   loop 1 invariant forall k string :: k in s.st ==> old(k in s.st) && s.st[k] == old(s.st[k])
-//@   loop 1 invariant s.vi == old(s.vi) && len(targetVi) <= rangeindex + 1 && rangeindex < len(s.vi)
+//@   loop 1 invariant forall k string :: (old(k in s.st) && !(k in s.st) ==> !(k in s.mi)) && ((k in s.st) ==> (k in s.mi) == old(k in s.mi) && s.mi[k] == old(s.mi[k]))
+//@   loop 1 invariant forall i int :: 0 <= i && i <= rangeindex && old(s.vi[i].id in s.st) && old(gcDue(s.st[s.vi[i].id], now)) ==> !(old(s.vi[i].id) in s.st)
+//@   loop 1 invariant forall j int :: 0 <= j && j < len(targetVi) ==> (targetVi[j].id in s.st) && !gcDue(s.st[targetVi[j].id], now)
+//@   loop 1 invariant forall i int :: 0 <= i && i <= rangeindex && (old(s.vi[i].id) in s.st) ==> old(s.vi[i]) in elems(targetVi)
+//@   loop 1 invariant old(viSorted(s)) ==> (forall a int, b int :: 0 <= a && a < b && b < len(targetVi) ==> targetVi[a].version < targetVi[b].version)
+//@             && (forall a int :: 0 <= a && a < len(targetVi) ==> targetVi[a].version <= s.version)
+//@             && (forall a int, m int :: 0 <= a && a < len(targetVi) && rangeindex < m && m < len(s.vi) ==> targetVi[a].version < old(s.vi[m].version))
 //@   assigns s.st[*], s.mi[*], s.vi, s.vi[*]
 
 // ---- C11: snapshot files (same protocol as the notification log).
